@@ -173,7 +173,7 @@ def check(tier, seed):
                 if r2['out']:
                     samples.append([l for l in r2['out'] if not l.startswith('#')])
     # gate + replay files
-    for key, (b, exe, disabled, wrapper, text, detail) in sorted(found.items()):
+    for key, (b, exe, disabled, wrapper, text, detail) in checks.cap_keys(rep, found):
         rp = CaseReplayer(exe, disabled, STACK_IDS, wrapper=wrapper)
         key, d1 = checks.confirm(rep, rp, text, key, 'build=%s' % b)
         if key is None:
